@@ -164,3 +164,31 @@ def c13_class(v):
         if len(parts) == 3 and parts[0] != parts[1]:
             return "sep-slow-path-fraction-iterated-as-integer"
     return None
+
+
+def write_class(v):
+    """classes of known findings of the writers (C09, C14, C17)"""
+    t = v["op"].split(" ")
+    k = t[0].lstrip("L")
+    impl = v["implementation"]
+    detail = v.get("detail", "")
+    if k == "wi" and re.fullmatch(r"u(8|16|32|64|128|size)", t[1]) and impl.startswith("panic"):
+        f = int(t[2], 16)
+        if f & (1 << 5):                                   # required_mantissa_sign
+            return "unsigned-plus-sign-buffer"
+    if k == "wf":
+        f = int(t[2], 16)
+        r = (f >> 104) & 255
+        kind = "decimal" if r == 10 else ("pow2" if r in (2, 4, 8, 16, 32) else "generic")
+        if impl.startswith("panic") and t[-1] == "-" and kind == "decimal" and v.get("model", "-") in ("panic", "-"):
+            return "float-buffer-size-const-too-small"
+        if kind == "decimal" and "trim_floats did not remove" in detail:
+            return "decimal-trim-after-rounding"
+        if kind != "decimal" and detail:
+            d = re.sub(r"[0-9]+(/[0-9]+)?", "N", detail)
+            for key, name in (("is not a radix-N literal", "not-a-literal"), ("fewer than min_significant_digits", "fewer-than-min"),
+                              ("more than max_significant_digits", "more-than-max"), ("units of the last kept digit away", "value-off"),
+                              ("differs from the default output although no digit is cut", "value-off")):
+                if key in d:
+                    return "%s-digit-options-%s" % (kind, name)
+    return None
